@@ -13,9 +13,44 @@ plus
   pass <name>          the pass model `Model.Opt.passByName name` applied to every function of the current module
                        -> ok <sexpr of the result> | err <PythonExceptionName> | bad-op      (current module unchanged)
   passwf <name>        the same, answering only whether the result is well-formed: ok 1 | ok 0 … | err <Name>
+  wfx                  verdict exactly as `wf` (`ok 1` iff `wfModule`); a rejected module is described in more
+                       detail: `operand-types[<kind>+<kind>…]` lists the kinds of the ill-typed instructions
+                       (`binop`, `phi`, …; for calls `call-callee-type` / `call-arg-untyped` / `call-signature`),
+                       so that distinct defects of one pass get distinct signatures (diagnostic only)
 -/
 namespace Model.WfRun
 open Proto Spec.IR Spec.IRParse
+
+def instrKind : Instr → String
+  | .const .. => "const" | .undefined .. => "undefined" | .literal .. => "literal" | .alloc .. => "alloc"
+  | .addrof .. => "addrof" | .binop .. => "binop" | .unop .. => "unop" | .cast .. => "cast" | .load .. => "load"
+  | .store .. => "store" | .copyblob .. => "copyblob" | .phi .. => "phi" | .fcall .. => "call" | .pcall .. => "call"
+  | .asm .. => "asm" | .jump .. => "jump" | .cjump .. => "cjump" | .ret .. => "ret" | .exit => "exit"
+
+def callFailKind (m : Module) (ds : List Def) (callee : Operand) (args : List Operand) : String :=
+  if opndTy m ds callee ≠ some .ptr then "call-callee-type"
+  else if !(args.all fun a => (opndTy m ds a).isSome) then "call-arg-untyped"
+  else "call-signature"
+
+def typeFailKinds (m : Module) (f : Func) : List String :=
+  let ds := f.defs
+  let ks := f.blocks.flatMap fun b => b.instrs.filterMap fun i =>
+    if instrTypesOk m f ds i then none else
+    some (match i with
+      | .fcall _ _ c as => callFailKind m ds c as
+      | .pcall c as => callFailKind m ds c as
+      | i => instrKind i)
+  ks.foldl (fun acc k => if acc.contains k then acc else acc ++ [k]) []
+
+def wfxReply (m : Module) : String :=
+  if Spec.IRRun.wfReply m = "ok 1" then "ok 1" else
+  let fs := m.funcs.filterMap (fun f =>
+    match wfFailures m f with
+    | [] => none
+    | l => some (f.name ++ ":" ++ ",".intercalate (l.map fun c =>
+        if c = "operand-types" then c ++ "[" ++ "+".intercalate (typeFailKinds m f) ++ "]" else c)))
+  let fs := if allDistinct m.globalNames then fs else "*:globals-distinct" :: fs
+  "ok 0 " ++ ";".intercalate fs
 
 def step (st : Spec.IRRun.St) (line : String) : Spec.IRRun.St × String :=
   let l := line.trimAscii.toString
@@ -34,6 +69,7 @@ def step (st : Spec.IRRun.St) (line : String) : Spec.IRRun.St × String :=
       match Model.Opt.runPass p m with
       | .ok m' => (st, Spec.IRRun.wfReply m')
       | .error e => (st, "err " ++ e)
+  | ["wfx"], some m => (st, wfxReply m)
   | _, _ => Spec.IRRun.step' st line
 
 end Model.WfRun
